@@ -229,6 +229,42 @@ def entry_forwards_inputs(ctx, R, rule):
            "entry-forwards-inputs", where=pat.where(t), detail="; ".join(bad))
 
 
+def builder_forwards_graph(ctx, R, rule, from_graph):
+    """build_sampler hands the caller's graph to the graph constructor as it received it: the argument is the `self` parameter itself and
+    nothing in build_sampler writes to it or borrows it mutably before (dropping "dangling" externals, reordering edges … would make every
+    statement about the table a statement about another graph)."""
+    try:
+        bs = R.build_sampler()
+    except RoleLost as ex:
+        return ctx.lost(rule, str(ex))
+    ctx.fn(bs.path)
+    v = Vals(bs)
+    sites = [(bi, t) for bi, t, cb in R.local_callees(bs) if cb is from_graph]
+    if len(sites) != 1:
+        return ctx.lost(rule, "single call of the graph constructor in %s (found %d)" % (bs.path, len(sites)), bs.path)
+    bi, t = sites[0]
+    r = v.root(t["args"][0])
+    ok_arg = r.kind == "arg" and not r.path
+    writes = []
+    if ok_arg:
+        gl = r.base[1]
+        for bj, si, st in pat.stmts(bs):
+            if bs.blocks[bj]["cleanup"]:
+                continue
+            if st["place"]["l"] == gl and st["place"]["p"]:
+                writes.append("write to a field at %s" % pat.where(st))
+            rv = st["rv"]
+            if rv["k"] == "ref" and rv.get("mut") and rv["place"]["l"] == gl:
+                writes.append("mutable borrow at %s" % pat.where(st))
+            if rv["k"] == "ref" and rv.get("mut") and rv["place"]["l"] != gl:
+                # a mutable borrow of a copy / reborrow chain rooted in the graph parameter
+                rr = v.root_place(rv["place"])
+                if rr.kind == "arg" and rr.base[1] == gl:
+                    writes.append("mutable borrow at %s" % pat.where(st))
+    ctx.ob(rule, "%s passes its graph to the graph constructor unmodified" % norm_path(bs.path), ok_arg and not writes, bs.path, "builder-forwards-graph",
+           where=pat.where(t), detail=("argument is %r" % (r,)) if not ok_arg else "; ".join(writes))
+
+
 # ---- loops and commutative reducers -------------------------------------------------------------
 def loop_next_sites(body, v):
     """[(next_call_bb, switch_bb, some_target, none_target, term)] for `match Iterator::next(&mut it)` loop heads."""
